@@ -57,6 +57,12 @@ impl Ctx {
         Ctx(99)
     }
 }
+/// a clone is a different value (another identity, its own drop): the generated code has no reason to make one
+impl Clone for Ctx {
+    fn clone(&self) -> Self {
+        Ctx(self.0 + 1000)
+    }
+}
 impl Drop for Ctx {
     fn drop(&mut self) {
         let id = self.0;
@@ -74,6 +80,11 @@ impl HasId for Ctx {
 
 #[derive(Debug)]
 pub struct P(pub u32);
+impl Clone for P {
+    fn clone(&self) -> Self {
+        P(self.0 + 1000)
+    }
+}
 impl Drop for P {
     fn drop(&mut self) {
         let id = self.0;
